@@ -1,5 +1,6 @@
 import Afkak.ClientCache
 import Afkak.ClientNet
+import Afkak.ClientTrace
 import Afkak.ClientIface
 import Afkak.Monitor.C08
 import Afkak.Monitor.C07
@@ -172,6 +173,13 @@ def monStep (ws : List String) : Option (List String) :=
   | "mon-allinvalid" :: rest => do
     let c ← parseCache rest
     some (verdict (Afkak.Monitor.C08.allInvalid c))
+  | "mon-route" :: g :: ks :: rest => do
+    -- the routing kernel `route` (the subject of C07_routed_to_leader / C07_one_request_per_broker /
+    -- C07_coordinator) on an observed cache: what the real client did with it is compared by the harness
+    let c ← parseCache rest
+    match Afkak.ClientCache.route c (← parseKeys ks) (parseGroup g) with
+    | .ok gs => some ["groups " ++ showGroups gs]
+    | .error e => some [showRouteErr e]
   | _ => none
 
 
@@ -401,6 +409,8 @@ def failsLine (fs : List String) : List String :=
 
 structure NetSt where
   trace : List TItem := []
+  /-- the MODEL's own trace (`traceOfA`) of the events replayed so far, reversed -/
+  mtrace : List TItem := []
   cfg : Cfg := { timeout := 10, disconnectOnTimeout := false, bootHosts := [] }
   st : Afkak.ClientNet.St := {}
 
@@ -408,15 +418,20 @@ def netStep (n : NetSt) (ws : List String) : Option (NetSt × List String) :=
   match ws with
   | ["cfg", t, dot, hosts] => do
     let cfg : Cfg := { timeout := ← parseRat t, disconnectOnTimeout := ← parseBool dot, bootHosts := ← (splitList "," hosts).mapM parseHostPort }
-    some ({ cfg := cfg, st := {}, trace := [] }, ["ok"])
+    some ({ cfg := cfg, st := {}, trace := [], mtrace := [] }, ["ok"])
   | ["cfg", t, dot, hosts, retry] => do
     let cfg : Cfg := { timeout := ← parseRat t, disconnectOnTimeout := ← parseBool dot, bootHosts := ← (splitList "," hosts).mapM parseHostPort,
                        retryDelay := ← parseRat retry }
-    some ({ cfg := cfg, st := {}, trace := [] }, ["ok"])
+    some ({ cfg := cfg, st := {}, trace := [], mtrace := [] }, ["ok"])
   | ["t-reset"] => some ({ n with trace := [] }, ["ok"])
   | ["mon-c07"] => some (n, failsLine ((Afkak.Monitor.C07.run n.cfg n.trace.reverse).fails ++ (Afkak.Monitor.C07.run n.cfg n.trace.reverse).staleFails))
   | ["mon-c11"] => some (n, failsLine ((Afkak.Monitor.C11.run n.cfg n.trace.reverse).fails ++ (Afkak.Monitor.C11.run n.cfg n.trace.reverse).extraFails))
   | ["mon-c20"] => some (n, failsLine ((Afkak.Monitor.C20.run n.trace.reverse).fails ++ (Afkak.Monitor.C20.run n.trace.reverse).bootFails))
+  -- the monitors on the MODEL's own trace of the events replayed so far (what the soundness statements
+  -- `Cxx_model_traces_satisfy_monitor` are about)
+  | ["mon-c07-model"] => some (n, failsLine (Afkak.Monitor.C07.run n.cfg n.mtrace.reverse).fails)
+  | ["mon-c11-model"] => some (n, failsLine (Afkak.Monitor.C11.run n.cfg n.mtrace.reverse).fails)
+  | ["mon-c20-model"] => some (n, failsLine (Afkak.Monitor.C20.run n.mtrace.reverse).fails)
   | ["mon-iface"] => some (n, failsLine (Afkak.ClientIface.run n.trace.reverse).fails)
   | ["ndump"] =>
     some (n, dump n.st.cache ++
@@ -432,7 +447,9 @@ def netStep (n : NetSt) (ws : List String) : Option (NetSt × List String) :=
     let (ws', env) ← splitEnv ws
     let ev ← parseEv ws'
     let (st', obs) := Afkak.ClientNet.step n.cfg n.st env ev
-    some ({ n with st := st' }, obs.map showOb)
+    let items := [TItem.ev ev] ++ obs.map TItem.ob ++ attrItems st' obs ++
+      [TItem.dump st'.cache, TItem.timers (st'.timers.map (fun t => (t.what, t.due)))]
+    some ({ n with st := st', mtrace := items.reverse ++ n.mtrace }, obs.map showOb)
   | [] => none
 
 end Net
